@@ -23,12 +23,12 @@ CHECKS = {
         text="Contract-style oracle on every transform_circuit/transform call made by a workload that covers every component constructor, "
              "edge values, list positions, ground placement and frequency classes: branch id multiset, terminal order, reference node and the "
              "element's Z/Y/V/I (via the element protocol) are compared with an independent component table; periodic sources against the "
-             "true Fourier coefficient of their own time function, up to radio-frequency fundamentals and zero resolution (gating judged at float spacing).",
+             "true Fourier coefficient of their own time function, up to radio-frequency fundamentals and zero resolution (gating judged at float spacing). Bridged components, infinite reactances and components of unknown kind (refused or present) are part of the workload.",
         design='5/C07', technique='postcondition oracle on observed transformations vs independent component table'),
     'C08': dict(
         text="Runtime oracle on the harmonic classes: amplitude/phase/a/b/c of orders 0..40 and random orders up to 600 are compared with a "
              "closed-form integral of the waveform's own sampled time function, plus Parseval with a rigorous total-variation tail bound and "
-             "lookup-by-name checks, over amplitudes/phases/offsets/periods of all six wave types.",
+             "lookup-by-name checks, over amplitudes/phases/offsets/periods of all six wave types. Also: amplitude exactly 0, integer-typed instants, quarter-period instants inside the waveform's range, lookups by equal-but-not-identical names.",
         design='5/C08', technique='runtime oracle: closed-form Fourier integral of the sampled time function'),
     'C06': dict(
         text="Runtime oracle on open_circuit_impedance / element_impedance / short_circuit_current / Thevenin-Norton objects / Circuit.impedance "
@@ -40,11 +40,11 @@ CHECKS = {
     'C04': dict(
         text="Relation monitor between library executions: the solution with all sources scaled by a random complex factor, the sum of the "
              "solutions of source groups produced by the library's own zeroing operations (shared keep list), each zeroing operation on its own, "
-             "and the all-deactivated network are compared with the full solution (physical current convention), on generated well-posed networks.",
+             "and the all-deactivated network are compared with the full solution (physical current convention), on generated well-posed networks. A stiff-supply / nano-ampere template spans twelve decades with a kappa-following tolerance.",
         design='5/C04', technique='metamorphic relation monitor over pairs/sums of observed executions'),
     'C05': dict(
         text="Invariant monitor on every kind of solution object (network, DC, complex peak/RMS, time-domain on a grid, transient sample-wise): "
-             "Tellegen power balance in the stated convention, P against the same object's V and I, resistor/inductor/capacitor sign rules; power lines of the one- and two-sided spectrum (definition, conjugate symmetry, +w and -w lines add up to the average power).",
+             "Tellegen power balance in the stated convention, P against the same object's V and I, resistor/inductor/capacitor sign rules; power lines of the one- and two-sided spectrum (definition, conjugate symmetry, +w and -w lines add up to the average power). The balance is also taken on a solve with a caller's numbering, and solved ComplexSolution objects are switched to the other (peak/RMS) convention and re-judged.",
         design='5/C05', technique='invariant monitor (power balance, definition and sign rules) on observed solutions'),
     'C10': dict(
         text="Runtime oracle on the nodal state-space model: for every published source, every node potential / element voltage / element current "
@@ -69,7 +69,7 @@ CHECKS = {
     'C03': dict(
         text="Pair monitor: an original and a transformed description (hostile bijective renaming of nodes and elements, list permutation, reversed "
              "elements with negated source values, new reference node) are both executed by the real code and related: network solutions and port "
-             "impedances, ComplexSolution phasors, state-space transfer values addressed by source name, transient waveforms.",
+             "impedances, ComplexSolution phasors, state-space transfer values addressed by source name, transient waveforms. Every third transformed network is solved with a caller's node/source numbering; port voltages of element-bridged node pairs are related under the transform.",
         design='5/C03', technique='metamorphic pair monitor over original/transformed executions'),
     'C09': dict(
         text="Runtime oracle on frequency_components / FrequencyDomainSolution (one- and two-sided) / TimeDomainSolution: the analysed frequency list is "
@@ -109,7 +109,7 @@ CHECKS = {
              "reverse flags, degree/sine phase input) are built with the library's own symbols and translated; an independent union-find model on the "
              "program's grid coordinates gives the depicted netlist; components are compared by id/kind/value with a node bijection, labels and ground "
              "by name (incl. SchematicDiagramParser.ground_label), and the solved circuit with the exact solution of the depicted netlist (network_translator too, for its symbol subset); each program also under rotation, translation, rescaling, "
-             "wire splitting and reordering. One rounding-boundary defect is recorded as a known finding.",
+             "wire splitting and reordering. One rounding-boundary defect is recorded as a known finding. Drawings include foreign schemdraw parts (must be refused), named ground symbols, unnamed dots on named nodes and the four ways of entering a phase.",
         design='5/C13', technique='runtime oracle: independent turtle/union-find model of the drawing program + metamorphic transforms'),
     'C14': dict(
         text="Runtime oracle on SchematicDiagramSolution.draw_voltage/current/power/potential through all four adapters and on the label symbols that "
